@@ -137,6 +137,13 @@ def reqstop_protocol(run, F):
         for n2 in rdc:
             for pth in expr_paths(G.ev[n2].get('rhs')):
                 if pth and not pth.startswith('#') and '.' not in pth: flagvars.add(pth)
+        # ... possibly through a local pointer (`bool* p = &flag; cb->removedDuringCallback_ = p;`)
+        for n2, e2 in G.ev.items():
+            if e2.get('k') == 'decl':
+                for v in e2['vars']:
+                    if v['var'] in flagvars:
+                        for pth in expr_paths(v.get('init')):
+                            if pth and not pth.startswith('#') and '.' not in pth: flagvars.add(pth)
         if not flagvars: flagvars = {'removedDuringCallback'}
         for t, tt, tf in G.branch_edges(lambda e: bool(flagvars & set(expr_paths(e['cond'])))):
             pol = _pol_of_path(G.ev[t]['cond'], lambda p: p in flagvars)
